@@ -61,6 +61,8 @@ def replay(job):
             ev.append([act, arg, []])
         else:
             libs = tuple(".".join(l) for l in arg)
+            if step % 2:
+                libs = list(libs)      # any sequence of names is a legitimate way to ask
             try:
                 p = Program(libraries=libs)
                 progs[step] = p
